@@ -10,6 +10,7 @@ import collections
 import multiprocessing
 import os
 import pickle
+import signal
 import random
 import time
 
@@ -42,6 +43,17 @@ class Spec:
 
     def aux_key(self, aux):
         return None
+
+
+TRANSITION_TIMEOUT_S = 10
+
+
+class TransitionTimeout(BaseException):
+    pass
+
+
+def _on_alarm(signum, frame):
+    raise TransitionTimeout()
 
 
 _SKIP_MODULES = ("threading", "multiprocessing", "_thread", "logging", "hsverif", "types", "functools")
@@ -82,7 +94,20 @@ def _expand(task):
     res = []
     _SPEC.cur_history = [_SPEC.ops[j] for j in hist]  # for states whose hidden state must be re-created by replay
     for i, op in enumerate(_SPEC.ops):
-        nt, naux, viol, obs = _SPEC.transition(root, tree, aux, op)
+        # a call of the real code that waits for an identifier nobody will release would hang the exploration: every
+        # transition runs under an alarm, and a transition that does not return is a verdict (the store blocked)
+        signal.signal(signal.SIGALRM, _on_alarm)
+        signal.alarm(TRANSITION_TIMEOUT_S)
+        try:
+            nt, naux, viol, obs = _SPEC.transition(root, tree, aux, op)
+        except TransitionTimeout:
+            nt, naux, obs = tree, None, "BLOCKED"
+            viol = [({"kind": "blocked", "op": op[0],
+                      "what": "the call (or a probing call after it on the same instance) did not return within %d s: "
+                              "it waits for an identifier that is never released" % TRANSITION_TIMEOUT_S},
+                     {"call": list(op)})]
+        finally:
+            signal.alarm(0)
         res.append((i, nt, naux, viol, obs))
     return hist, depth, res
 
@@ -146,6 +171,10 @@ def explore(spec, max_depth=None, max_states=None, time_cap=None, workers=None, 
                             nxt.append((nt, naux, d + 1, h2))
                             if len(res.samples) < 6 and len(h2) >= 2 and rng.random() < 0.05:
                                 res.samples.append([common.jsonable(spec.ops[j]) for j in h2])
+                if sum(1 for sig, _ in res.violations if sig.get("kind") == "blocked") >= 16 and lo + 256 < len(frontier):
+                    timed_out = True
+                    res.cap = "stopped after 16 transitions that never returned (each costs the %d s watchdog)" % TRANSITION_TIMEOUT_S
+                    break
                 if time_cap and time.time() - t0 > time_cap and lo + 256 < len(frontier):
                     timed_out = True
                     res.cap = "time cap %ds at depth %d (%d of %d frontier states not expanded)" % (
